@@ -3,6 +3,7 @@
 -/
 import Otr.Conv
 import Otr.DriverPure
+import Otr.AkeAbs
 namespace Otr.Driver
 open Otr
 
@@ -110,6 +111,11 @@ def convOp (st : DState) (line : String) : Option (DState × String) :=
         policies := natArg pol, ourKeys := keys, fragmentSize := natArg frag,
         errHandler := errh == "1", friendlyQuery := fr, ourTag := natArg tag }
       some (st.put id c, "ok " ++ snapStr c)
+  | ["akeabs", pat, sched] =>
+    -- abstract two-party AKE system (Otr.AkeAbs): final state after the schedule, for both hash orders
+    let bs := sched.toList.filterMap fun c => if c == '>' then some true else if c == '<' then some false else none
+    let d (w : Bool) := AkeAbs.describe (AkeAbs.runSchedule (AkeAbs.startPattern (natArg pat) w) bs)
+    some (st, if d true == d false then d true else s!"{d true}|{d false}")
   | ["tick", d] => some ({ st with now := st.now + natArg d }, "ok")
   | ["setfrag", id, n] => (st.get id).map fun c => (st.put id { c with fragmentSize := natArg n }, "ok")
   | ["query", id] => (st.get id).map fun c => (st, hx (queryMessage c.policies c.friendlyQuery))
